@@ -119,23 +119,65 @@ def read_hashes(exp, W, where, extroot):
     return first
 
 
-def _sig_for(symptom, feats, erasures=None):
-    if "digit-name" in feats:
+def _closure(W, node, out=None):
+    """node plus every producer whose own hash is an ingredient of node's hash (directory references)."""
+    out = out if out is not None else []
+    if node not in out:
+        out.append(node)
+        for ref in W["comps"][node[0]]["refs"]:
+            if ref["t"] == "comp" and ref["file"] is None and ref["m"] != "output":
+                for t in G.ref_targets(W, node, ref):
+                    _closure(W, t, out)
+    return out
+
+
+def _digit_effect(W, node, symptom):
+    """Root-cause predicate for SIG_DIGIT: the blueprint of a component is looked up under its name minus trailing
+    digits; that finds nothing (no hash) or a different component of the stage (its executable is hashed)."""
+    for n in _closure(W, node):
+        c = W["comps"][n[0]]
+        stripped = c["name"].rstrip("0123456789")
+        if stripped == c["name"]:
+            continue
+        others = [o for o in W["comps"] if o["stage"] == c["stage"] and o["name"] == stripped]
+        if symptom == "no-hash-although-inputs-present":
+            if not others:
+                return True
+        elif others and others[0]["exe"] != c["exe"]:
+            return True
+    return False
+
+
+def _ext_paths(W, node):
+    c = W["comps"][node[0]]
+    return sorted((W["extdir"], r["f"]) for r in c["refs"] if r["t"] == "ext" and r["args"])
+
+
+def classify(symptom, a, b=None):
+    """Root-cause signature from independent predicates on the input; falls back to the symptom."""
+    sides = [x for x in (a, b) if x is not None]
+    feats = set()
+    for w, n in sides:
+        feats |= G.features(w, n)
+    if any(_digit_effect(w, n, symptom) for w, n in sides):
         return SIG_DIGIT
-    if "ref-inside-ref" in feats and symptom in ("equal-hash-for-different-work", "different-hash-for-equivalent-work",
-                                                 "fuzzy-hash-ignores-producer-change"):
-        return SIG_REF_IN_REF
-    if "ext-in-args" in feats and symptom == "different-hash-for-equivalent-work":
-        return SIG_EXT
-    if symptom == "equal-hash-for-different-work" and erasures:
-        if erasures.get("dirout"):
+    if symptom == "different-hash-for-equivalent-work":
+        if _ext_paths(*a) != _ext_paths(*b):
+            return SIG_EXT
+        if "ref-inside-ref" in feats:
+            return SIG_REF_IN_REF
+    elif symptom == "equal-hash-for-different-work":
+        for name, flags in ((SIG_DIROUT, {"dirout"}), (SIG_DDIR, {"ddir"}), (SIG_DIROUT, {"dirout", "ddir"})):
+            fl = frozenset(flags)
+            if G.descriptor(a[0], a[1], fl) == G.descriptor(b[0], b[1], fl):
+                return name
+        if "ref-inside-ref" in feats:
+            return SIG_REF_IN_REF
+    elif symptom == "fuzzy-hash-ignores-producer-change":
+        if "dirout" in feats:
             return SIG_DIROUT
-        if erasures.get("ddir"):
-            return SIG_DDIR
-        if erasures.get("both"):
-            return SIG_DIROUT
-    if symptom == "fuzzy-hash-ignores-producer-change" and "dirout" in feats:
-        return SIG_DIROUT
+        if "ref-inside-ref" in feats:
+            return SIG_REF_IN_REF
     return symptom
 
 
@@ -195,7 +237,7 @@ def _check_pair(case, W, W2, mut, root, ctx: Ctx):
                                 "%s %s has strong hash %s although a referenced file does not exist" % (
                                     sides[si][2], _brief(w, n), s))
         elif d != G.UNDEF and s is None:
-            raise Violation(_sig_for("no-hash-although-inputs-present", G.features(w, n)),
+            raise Violation(classify("no-hash-although-inputs-present", (w, n)),
                             "%s %s: all referenced inputs exist but memoization_hash is None" % (
                                 sides[si][2], _brief(w, n)))
 
@@ -210,20 +252,14 @@ def _check_pair(case, W, W2, mut, root, ctx: Ctx):
             if da == db:
                 eq_pairs += 1
                 if ha != hb:
-                    feats = G.features(wa, na) | G.features(wb, nb)
-                    raise Violation(_sig_for("different-hash-for-equivalent-work", feats),
+                    raise Violation(classify("different-hash-for-equivalent-work", (wa, na), (wb, nb)),
                                     "%s %s -> %s but %s %s -> %s; same executable/arguments/consumed contents/image "
                                     "(mutation %s)" % (sides[sa][2], _brief(wa, na), ha, sides[sb][2], _brief(wb, nb),
                                                        hb, json.dumps(mut)))
             else:
                 ne_pairs += 1
                 if ha == hb:
-                    feats = G.features(wa, na) | G.features(wb, nb)
-                    er = {}
-                    for name, flags in (("dirout", {"dirout"}), ("ddir", {"ddir"}), ("both", {"dirout", "ddir"})):
-                        fl = frozenset(flags)
-                        er[name] = G.descriptor(wa, na, fl) == G.descriptor(wb, nb, fl)
-                    raise Violation(_sig_for("equal-hash-for-different-work", feats, er),
+                    raise Violation(classify("equal-hash-for-different-work", (wa, na), (wb, nb)),
                                     "%s %s and %s %s both -> %s although their work differs (mutation %s)" % (
                                         sides[sa][2], _brief(wa, na), sides[sb][2], _brief(wb, nb), ha,
                                         json.dumps(mut)))
@@ -236,7 +272,7 @@ def _check_pair(case, W, W2, mut, root, ctx: Ctx):
         for n in same_nodes:
             fuzzy_rel += 1
             if h1[n][1] != h2[n][1]:
-                raise Violation(_sig_for("fuzzy-hash-depends-on-produced-file-content", G.features(W, n)),
+                raise Violation(classify("fuzzy-hash-depends-on-produced-file-content", (W, n)),
                                 "%s: fuzzy %s -> %s when only the content of produced file %s changed" % (
                                     _brief(W, n), h1[n][1], h2[n][1], mut["where"]))
     if k in ("exe", "lit", "image", "var", "swap", "content", "method", "ddir-content", "dropref") and \
@@ -265,7 +301,7 @@ def _check_pair(case, W, W2, mut, root, ctx: Ctx):
                 fuzzy_rel += 1
                 ctx.rec.label("fuzzy:producer-changed")
                 if f1 == f2:
-                    raise Violation(_sig_for("fuzzy-hash-ignores-producer-change", G.features(W, n)),
+                    raise Violation(classify("fuzzy-hash-ignores-producer-change", (W, n)),
                                     "%s: fuzzy hash stays %s although the fuzzy hash of its producer %s changed "
                                     "%s -> %s (mutation %s)" % (_brief(W, n), f1, G.node_id(W, changed[0]),
                                                                 h1[changed[0]][1], h2[changed[0]][1], json.dumps(mut)))
